@@ -50,7 +50,7 @@ def gen_case(rng, multi_axis=False, k=None, N=None, general=False, wide=None, wi
         wok = np.array([rng.random() >= rng.choice([0.0, 0.0, 0.2]) for _ in range(N)], dtype=bool)
         w = (wkind, wv, wok)
     base.update(fact_vals=fvals, fact_valid=fvalid, fact_form=form, weights=w,
-                ignore=rng.random() < 0.5, K=K, general=general)
+                ignore=rng.random() < 0.5, K=K, general=general, untraced=rng.random() < 0.3)
     return base
 
 
@@ -188,7 +188,16 @@ def call(cube, func, case, ret):
         f, w = case["_args"]
     else:
         f, w = fact_arg(case), weights_arg(case)
-    if func == "count":
+    if type(cube).__name__ == "ccube" and case.get("untraced"):
+        # the aggregate-function OBJECT handed to calculate(), built with tracing=False (the cube's shortcut methods
+        # always build it with the default tracing=True; a caller who wants no timing overhead does this)
+        from catii import ffuncs
+        if func == "count":
+            fo = ffuncs.ffunc_count(weights=w, N=(None if case["dense"] else case["N"]), tracing=False, **kw)
+        else:
+            fo = getattr(ffuncs, "ffunc_" + func)(f, weights=w, tracing=False, **kw)
+        out = cube.calculate([fo])[0]
+    elif func == "count":
         if not case["dense"]:
             kw["N"] = case["N"]
         out = cube.count(weights=w, **kw)
